@@ -165,7 +165,10 @@ def generate(rng, tier, idx, force=None):
     if rng.random() < 0.25:
         t0 = tmpls[0]
         ops.insert(0, ["invalidate_def", 0, rng.choice(t0["defs"])["name"]])
-    return {"engine": NAME, "property": PROPERTY, "backend": backend, "tmpls": tmpls, "ops": ops, "faults": [], "base": base}
+    return {"engine": NAME, "property": PROPERTY, "backend": backend, "tmpls": tmpls, "ops": ops, "faults": [], "base": base,
+            # Beaker file/dbm: every template with its own cache directory (and one shared module_directory): then even
+            # templates whose module ids collide must not see each other's entries
+            "separate_dirs": backend in ("beaker-file", "beaker-dbm") and base is None and rng.random() < 0.5}
 
 
 def all_sections(t):
@@ -403,6 +406,9 @@ class Harness:
             mid = re.sub(r"\W", "_", t["uri"])
             ids.setdefault(mid, []).append(ti)
         self.colliding = {ti: [o for o in grp if o != ti] for grp in ids.values() for ti in grp if len(grp) > 1}
+        if trace.get("separate_dirs"):
+            self.colliding = {}  # separate backend directories: nothing may be shared, judge at full strength
+            self.probe("separate-cache-dirs")
         if self.colliding:
             self.probe("two-templates-colliding-ids")
 
@@ -424,6 +430,10 @@ class Harness:
             kw["cache_impl"] = "beaker"
             cache_args.setdefault("type", b.split("-")[1])
             cache_args["dir"] = self.cache_dir
+            if self.trace.get("separate_dirs") and ti is not None:
+                cache_args["dir"] = os.path.join(self.cache_dir, "t%d" % ti)
+                os.makedirs(cache_args["dir"], exist_ok=True)
+                kw["module_directory"] = os.path.join(self.root, "shared_moddir")
         else:
             from dogpile.cache import make_region
 
